@@ -27,7 +27,7 @@ func c09Plan(tp *Tape, env *Env) *Plan {
 		MaxNodes: 3, MaxStmts: 5, MaxDepth: 2, MaxTotal: 24,
 		WLine: 10, WOptions: 4, WIf: 4, WSet: 4, WJump: 2, WJumpE: 1, WStop: 0, WCall: 1,
 		NVars: [3]int{2, 1, 1}, NJVars: 1, Probes: true, Visited: true, Random: true, ExprDepth: 2,
-		InlinePct: 35, CondPct: 40, VarLines: tp.Bool("varlines"), Builtins: true,
+		InlinePct: 35, CondPct: 40, VarLines: tp.Bool("varlines"), Builtins: true, NoStringSelfGrowth: true,
 	}
 	withFaults := tp.Chance(25, "withfaults")
 	if withFaults {
